@@ -185,9 +185,14 @@ def run_schedule(ctx, fam, hist, grid, form, devs, maxsteps, guards):
             holder[0] = None
             dropped[0] = True
 
+    failure = []
+
     def before_step():
         for m in devs.get(step[0], ()):
-            mutate(m)
+            try:
+                mutate(m)
+            except Exception as e:      # noqa - a mutation that fails is a finding, not a harness error
+                failure.append('mutation %r raised %s: %s' % (m, type(e).__name__, e))
         step[0] += 1
 
     def judge(r):
@@ -242,6 +247,8 @@ def run_schedule(ctx, fam, hist, grid, form, devs, maxsteps, guards):
                 trace.append(r if r[0] == 'exc' else ('ok',))
                 problem = judge(r)
                 j -= 1
+    if failure and problem is None:
+        problem = failure[0]
     # the cursor is still alive here; afterwards the container must be sound
     tt = holder[0]
     if problem is None and tt is not None:
